@@ -63,7 +63,7 @@ NOT_INPUT = {
     ("data.DataFormat.set_property", "builtins.KeyError"): "QUOTING_TO_CSV_QUOTE_MAP[quoting]: quoting comes from _validated_choice over the map's own keys (decided by the set_property table, C11 O11.2)",
     ("interface.import_plugins", ANY): "plugin code",
     ("applications.CutplaceApp.set_options", "builtins.KeyError"): "log level: argparse restricts --log to the keys of the map (choices=)",
-    ("sql.write_create", "builtins.UnicodeEncodeError"): "the create script is written as UTF-8",
+    ("sql.write_create", "builtins.UnicodeError"): "the create script is written as UTF-8",
 }
 
 # (origin function, class, origin text) - finer than NOT_INPUT where the same call shape also occurs with input
@@ -94,7 +94,7 @@ NOT_INPUT_SITES = {
         "fnmatch.translate escapes '(' and '?', so the compiled text holds no inline flags that could contradict each other",
     ("fields.PatternFieldFormat.__init__", "builtins.OverflowError", "re.compile(self.pattern, re.IGNORECASE | re.MULTILINE)"):
         "fnmatch.translate escapes braces, so the compiled text holds no repetition count that could be too large",
-    ("rowio.FixedRowWriter.write_row", "builtins.UnicodeEncodeError", "self._target_stream.write(self._line_separator)"):
+    ("rowio.FixedRowWriter.write_row", "builtins.UnicodeError", "self._target_stream.write(self._line_separator)"):
         "the line separator is one of the ASCII constants",
 }
 
